@@ -46,10 +46,13 @@ ASSUMPTIONS = [
     "digestion efficiencies 0.6 (grass) / 0.8 (feed) as in the property statement; a herd object carrying other "
     "values is reported under ne_le_requirement",
     "the code rounds the fed count: round() or floor to the nearest head is accepted (1 head; 0.5 head for signs)",
-    "priority key (per-head table given) = meat kcal per head / hours per head + (net energy per head per month / "
-    "0.8) / hours per head, with net energy per head as used for feeding (regional LSU factor included); equal "
-    "keys (1e-12 relative) may appear in any order. Without a table only strictness w.r.t. the order actually used "
-    "is judged (the property names no key for the fallback)",
+    "priority key (per-head table given) = meat kcal per head / hours per head + (LSU x one-LSU net energy / 0.8) / "
+    "hours per head, recomputed by the harness from the tables, WITHOUT the regional LSU factor: main() fixes the "
+    "order before the regional factors are applied to the herds, and the property does not say which energy figure "
+    "the key uses; the order by the key WITH the regional factor (the per-head energy used for feeding) is counted "
+    "as probe order_not_descending_by_key_with_regional_factor. Equal keys (1e-12 relative) may appear in any "
+    "order. Without a table only strictness w.r.t. the order actually used is judged (the property names no key for "
+    "the fallback)",
     "a negative consumption (supply growing during a call) is counted as a probe, not judged",
 ]
 COMPONENTS = {
@@ -66,7 +69,7 @@ TIERS = {
 }
 
 EPS = float(np.finfo(float).eps)
-KEY_WITH_REGIONAL_FACTOR = True
+KEY_WITH_REGIONAL_FACTOR = False  # see ASSUMPTIONS: the key is judged as evaluated when the order is fixed
 
 
 def prepare():
@@ -102,6 +105,18 @@ def monitor(t, V):
     def bump(k, by=1):
         probes[k] = probes.get(k, 0) + by
 
+    failed = set()
+
+    def check(clause, ok, ident, witness, detail):
+        """V.check without re-deriving witness and identity digest for a class already reported in this run."""
+        V.ev(clause)
+        if ok:
+            return
+        key = (clause,) + tuple(sorted(ident.items()))
+        if key not in failed:
+            failed.add(key)
+            V.fail(clause, ident, witness() if callable(witness) else witness, detail)
+
     order = [h["type"] for h in t.herds]
     if not V.check("call_structure", len(t.calls) == n * N and all(
             t.calls[i][0] == order[i % n] for i in range(len(t.calls))), {"order": run["order"]},
@@ -110,7 +125,7 @@ def monitor(t, V):
         return
     for h in t.herds:
         if h["eff"].get("grass") != engine_h.EFF_GRASS or h["eff"].get("feed") != engine_h.EFF_FEED:
-            V.fail("ne_le_requirement", {"branch": "efficiencies_differ", "animal_type": h["type"]}, {"eff": h["eff"]},
+            V.fail("ne_le_requirement", {"branch": "efficiencies_differ"}, {"eff": h["eff"], "animal_type": h["type"]},
                    "digestion efficiencies differ from 0.6 / 0.8")
     rum = [T["attrs"][typ]["digestion"] == "ruminant" for typ in order]
 
@@ -163,16 +178,22 @@ def monitor(t, V):
             delivered = engine_h.EFF_GRASS * g + engine_h.EFF_FEED * f
             met = delivered >= R - tolE
             tolH = herd * tolE / R if R > 0 else 0.0
+            # label of the code path taken (identity only; the verdicts below use `met`, not the label):
+            # NE_balance left at exactly 0 = one of the two "requirement covered" paths, otherwise the
+            # "feed as much as possible" path - also when the shortfall is only a rounding error.
             if R == 0:
                 branch = "zero_requirement_stale" if fed_before != 0 else "zero_requirement"
-            elif met:
+            elif B1 == 0:
                 branch = "fully_fed_grass" if f <= tolS else "fully_fed_feed"
             elif delivered <= tolE:
                 branch = "unfed"
             else:
                 branch = "partially_fed"
+            if met and R > 0 and B1 != 0:
+                bump("met_within_tolerance_but_partial_path")
             bump("branch_" + branch)
-            ident = {"branch": branch, "digestion": "ruminant" if rum[pos] else "non_ruminant", "animal_type": typ}
+            ident = {"branch": branch, "digestion": "ruminant" if rum[pos] else "non_ruminant",
+                     "function": "milk" if typ.startswith("milk_") else "meat"}
 
             def wit():
                 return {"month": m, "position": pos, "animal_type": typ, "herd": herd, "requirement": R,
@@ -183,14 +204,14 @@ def monitor(t, V):
 
             if g < -tolS or f < -tolS:
                 bump("negative_consumption")
-            V.check("used_le_supplied_call", g1 >= -tolS and f1 >= -tolS, ident, wit, "more consumed than was available")
-            V.check("ne_le_requirement", delivered <= R + tolE, ident, wit, "more net energy delivered than required")
+            check("used_le_supplied_call", g1 >= -tolS and f1 >= -tolS, ident, wit, "more consumed than was available")
+            check("ne_le_requirement", delivered <= R + tolE, ident, wit, "more net energy delivered than required")
             if not rum[pos]:
-                V.check("grass_only_ruminants", g == 0.0, ident, wit, "a non-ruminant consumed grass")
+                check("grass_only_ruminants", g == 0.0, ident, wit, "a non-ruminant consumed grass")
             # strict priority: consuming while an earlier species that can use the same supply went short
             bad_f = f > tolS and unsat_any is not None
             bad_g = g > tolS and unsat_rum is not None
-            V.check("strict_priority", not (bad_f or bad_g), dict(ident, supply="feed" if bad_f else "grass"),
+            check("strict_priority", not (bad_f or bad_g), dict(ident, supply="feed" if bad_f else "grass"),
                     lambda: dict(wit(), earlier_unsatisfied=order[unsat_any if bad_f else unsat_rum]),
                     "a species was served although an earlier species of the serving order was left short")
             if not met:
@@ -199,28 +220,28 @@ def monitor(t, V):
                 if rum[pos] and unsat_rum is None:
                     unsat_rum = pos
             # counting heads
-            V.check("fed_le_herd", fed <= herd + 0.5 + tolH, ident, wit, "more animals counted as fed than the herd holds")
+            check("fed_le_herd", fed <= herd + 0.5 + tolH, ident, wit, "more animals counted as fed than the herd holds")
             if met:
                 ok = abs(fed - herd) <= 0.5 + tolH
             else:
                 ok = fed < herd - tolH or herd * (1 - delivered / R) < 1 + tolH
-            V.check("fed_eq_herd_iff_met", ok, ident, wit,
+            check("fed_eq_herd_iff_met", ok, ident, wit,
                     "fed count equals the herd although the requirement was not met" if not met else
                     "fed count differs from the herd although the requirement was met")
             expected_fed = herd if met else herd * delivered / R
             if not met:
                 V.resid("fed_fraction", abs(fed - expected_fed) / max(herd, 1.0))
-                V.check("fed_fraction", abs(fed - expected_fed) <= 1 + tolH, ident,
+                check("fed_fraction", abs(fed - expected_fed) <= 1 + tolH, ident,
                         lambda: dict(wit(), expected_fed=expected_fed), "fed count is not herd x delivered / required")
             starving = float(h["population_starving_pre_slaughter"][m + 1])
-            V.check("starving_remainder", abs(starving - (herd - expected_fed)) <= 1 + tolH, ident,
+            check("starving_remainder", abs(starving - (herd - expected_fed)) <= 1 + tolH, ident,
                     lambda: dict(wit(), expected_starving=herd - expected_fed),
                     "starving count of the month is not herd - fed")
-            V.check("starving_nonneg", starving >= -0.5 - tolH, ident, wit, "starving count of the month is negative")
+            check("starving_nonneg", starving >= -0.5 - tolH, ident, wit, "starving count of the month is negative")
         # month totals
         tolM = 16 * EPS * (abs(feed_in[m]) + abs(grass_in[m])) * max(1, n)
         fu, gu = float(t.feed_used[m]), float(t.grass_used[m])
-        V.check("used_le_supplied_month", fu <= feed_in[m] + tolM and gu <= grass_in[m] + tolM, {"branch": "month_total"},
+        check("used_le_supplied_month", fu <= feed_in[m] + tolM and gu <= grass_in[m] + tolM, {"branch": "month_total"},
                 {"month": m, "feed_used": fu, "feed_delivered": feed_in[m], "grass_used": gu, "grass_delivered": grass_in[m]},
                 "monthly use exceeds the month's delivery")
         if abs(fu - tot_f) > tolM + 1e-12 * abs(fu) or abs(gu - tot_g) > tolM + 1e-12 * abs(gu):
